@@ -27,6 +27,10 @@ EXPLANATION = (
 EXPLANATION_ADDED = (" (R1 also) a no-clobber guard may live in a helper: the helper, partially evaluated with the caller's path and overwrite flag, must raise OSError exactly when os.path.lexists of the (same, equally expanded) path holds; (R4 also) the identifiers' extension behaviour is probed on constant file names, must cover the extensions documented in docs/region_io.rst, the content signature is read from the identifier's value, and an empty list must still be written with the signature (known finding for DS9); (R5b) format inference is asked with (path, class, method name) in the roles the identifier functions give their parameters and takes the format element of the registry key; (R6) identification keeps no state; (R7) the dispatch layer neither creates nor removes the destination."
                      ' R1 also: every normal return of a writer has passed the destination-creating call (no early return that neither raises nor writes).')
 EXPLANATION += EXPLANATION_ADDED
+EXPLANATION_ADDED2 = (" (R4b) the identifiers are evaluated symbolically: they answer for write and read calls alike on the path's extension, and for nothing else; (R4c) the FITS writer names the table extension the FITS reader and identifier look for.")
+EXPLANATION += EXPLANATION_ADDED2
+EXPLANATION_ADDED3 = (" (R7b) between Region.write / Regions.write / RegionsRegistry.write and the format writer the destination is handed on as the caller named it — as the same variable or through spellings that never follow a link (fspath, str, expanduser, abspath, Path), also through a helper (inlined); realpath / Path.resolve / readlink on the way is a violation: the writer's lexists guard would look at the target of a symbolic link.")
+EXPLANATION += EXPLANATION_ADDED3
 TRUSTED = ['open(name, "w") creates/truncates; HDU.writeto(name) creates the file',
            'os.path.lexists is true for files, symlinks and dangling symlinks',
            're module semantics on constant strings']
@@ -961,9 +965,13 @@ def r5b(ctx):
         params = {a.arg for a in fn.args.args}
         local = {t.id for st in ast.walk(fn) if isinstance(st, ast.Assign) for t in st.targets if isinstance(t, ast.Name)} - params
         disp = next((c for c in calls_in(fn) if isinstance(c.func, ast.Name) and c.func.id in local), None)
-        ctx.need(key_cls is not None and disp is not None and len(disp.args) > path_idx
-                 and isinstance(disp.args[path_idx], ast.Name), construct, 'registry key or dispatch call not recognised')
-        path_name = disp.args[path_idx].id
+        ctx.need(key_cls is not None and disp is not None and len(disp.args) > path_idx, construct,
+                 'registry key or dispatch call not recognised')
+        # the dispatched argument may spell the path differently (os.fspath(filename), a helper); which parameter it carries
+        # is what matters here — how it is spelt is R7b's business
+        carried = sorted({n.id for n in ast.walk(disp.args[path_idx]) if isinstance(n, ast.Name) and n.id in params - {'cls', 'self'}})
+        ctx.need(len(carried) == 1, construct, 'registry key or dispatch call not recognised')
+        path_name = carried[0]
         probs = []
         a = bound.get(role['method'])
         if not (isinstance(a, ast.Constant) and a.value == name):
@@ -972,6 +980,10 @@ def r5b(ctx):
         if not (isinstance(a, ast.Name) and a.id == key_cls):
             probs.append(f'the class asked about is `{norm(a) if a is not None else None}`, the registry key uses `{key_cls}`')
         a = bound.get(role['path'])
+        if a is not None and not isinstance(a, ast.Name):
+            r_ = _path_forward(m, fi, a, {path_name})
+            if r_ is not None and r_[0] == 'same':
+                a = ast.Name(id=path_name, ctx=ast.Load())
         if not (isinstance(a, ast.Name) and a.id == path_name):
             probs.append(f'the path asked about is `{norm(a) if a is not None else None}`, the {name}r is given `{path_name}`')
         if probs:
@@ -1036,6 +1048,134 @@ def r7(ctx):
             ctx.ok(construct, 'the destination is only handed on to the format writer')
 
 
+PATH_KEEPERS = ('os.fspath', 'fspath', 'str', 'os.path.expanduser', 'expanduser', 'os.path.abspath', 'abspath', 'os.path.expandvars',
+                'Path', 'pathlib.Path', 'PurePath', 'pathlib.PurePath', 'os.fsdecode')
+PATH_KEEPER_METHODS = ('expanduser', 'absolute', 'as_posix', '__fspath__', '__str__')
+LINK_FOLLOWERS = ('os.path.realpath', 'realpath', 'os.readlink', 'readlink')
+LINK_FOLLOWER_METHODS = ('resolve', 'readlink')
+
+
+def _path_forward(m, fi, expr, names, depth=0):
+    """How expression `expr` of function `fi` relates to the path held by the variables `names`:
+    ('same', names used) — the path itself, possibly through spellings that never follow a link (fspath, str, expanduser,
+    abspath, Path); ('follows', construct) — through realpath / Path.resolve / readlink, i.e. the *target* of a symbolic link;
+    ('unknown', construct) — something else; None — the expression does not carry the path."""
+    uses = {n.id for n in ast.walk(expr) if isinstance(n, ast.Name) and n.id in names}
+    if not uses:
+        return None
+    if isinstance(expr, ast.Name):
+        return ('same', uses)
+    if isinstance(expr, ast.IfExp):
+        rs = [r for r in (_path_forward(m, fi, e, names, depth) for e in (expr.body, expr.orelse)) if r is not None]
+        for kind in ('follows', 'unknown'):
+            for r in rs:
+                if r[0] == kind:
+                    return r
+        return ('same', uses)
+    if isinstance(expr, ast.Call):
+        cn = call_name(expr) or ''
+        if isinstance(expr.func, ast.Attribute) and expr.func.attr in LINK_FOLLOWER_METHODS and not expr.args \
+                and _path_forward(m, fi, expr.func.value, names, depth):
+            return ('follows', norm(expr)[:80])
+        if cn in LINK_FOLLOWERS and expr.args:
+            return ('follows', norm(expr)[:80])
+        if isinstance(expr.func, ast.Attribute) and expr.func.attr in PATH_KEEPER_METHODS and not expr.args:
+            return _path_forward(m, fi, expr.func.value, names, depth)
+        if cn in PATH_KEEPERS and len(expr.args) == 1 and not expr.keywords:
+            return _path_forward(m, fi, expr.args[0], names, depth)
+        if depth < 2:
+            cands = m.resolve_call(fi, expr) or ()
+            if len(cands) == 1:
+                g = cands[0]
+                params = [a.arg for a in g.node.args.args if a.arg not in ('self', 'cls')]
+                carried = set()
+                for prm, a in zip(params, expr.args):
+                    r = _path_forward(m, fi, a, names, depth)
+                    if r is not None:
+                        if r[0] != 'same':
+                            return r
+                        carried.add(prm)
+                if carried:
+                    # single-assignment locals of the helper that carry the path
+                    for _ in range(3):
+                        for st in ast.walk(g.node):
+                            if isinstance(st, ast.Assign) and len(st.targets) == 1 and isinstance(st.targets[0], ast.Name):
+                                r = _path_forward(m, g, st.value, carried, depth + 1)
+                                if r is not None and r[0] != 'same':
+                                    return (r[0], f'{g.name}: {r[1]}')
+                                if r is not None:
+                                    carried.add(st.targets[0].id)
+                    out = None
+                    for st in ast.walk(g.node):
+                        if isinstance(st, ast.Return) and st.value is not None:
+                            r = _path_forward(m, g, st.value, carried, depth + 1)
+                            if r is None:
+                                return ('unknown', f'{g.name} returns `{norm(st.value)[:60]}`')
+                            if r[0] != 'same':
+                                return (r[0], f'{g.name}: {r[1]}')
+                            out = ('same', uses)
+                    if out:
+                        return out
+        return ('unknown', norm(expr)[:80])
+    return ('unknown', norm(expr)[:80])
+
+
+def r7b(ctx):
+    """the destination the format writer tests and creates is the path the caller named: between Region.write /
+    Regions.write / RegionsRegistry.write and the writer the path is handed on as it is (or through spellings that do not
+    follow links: fspath, str, expanduser, abspath).  Through realpath / Path.resolve the writer's lexists guard looks at the
+    *target* of a symbolic link: a dangling link counts as absent, and the write goes through it without overwrite=True."""
+    m = ctx.model
+    reg = m.cls('RegionsRegistry')
+    entries = [m.method(reg, 'write')]
+    for cname in ('Region', 'Regions'):
+        ci = m.cls(cname)
+        entries.append(m.method(ci, 'write') if ci is not None else None)
+    ctx.need(len(entries) == 3 and all(entries), 'write dispatch', 'Region.write / Regions.write / RegionsRegistry.write not found')
+    for fi in entries:
+        fn = fi.node
+        construct = fi.qualname.split(':')[1]
+        pathparam = 'filename' if any(a.arg == 'filename' for a in fn.args.args) else None
+        ctx.need(pathparam is not None, construct, 'no `filename` parameter')
+        names = {pathparam}
+        problem = None
+        # locals re-bound from the path (filename = os.fspath(filename))
+        for st in ast.walk(fn):
+            if isinstance(st, ast.Assign) and len(st.targets) == 1 and isinstance(st.targets[0], ast.Name):
+                r = _path_forward(m, fi, st.value, names)
+                if r is not None and r[0] == 'same':
+                    names.add(st.targets[0].id)
+                elif r is not None and (call_name(st.value) or '').split('.')[-1] not in ('identify_format', 'lexists', 'exists'):
+                    if st.targets[0].id in {n.id for c in calls_in(fn) for a in list(c.args) + [k.value for k in c.keywords]
+                                            for n in ast.walk(a) if isinstance(n, ast.Name)}:
+                        problem = problem or (r, st)
+                        names.add(st.targets[0].id)
+        local = {t.id for st in ast.walk(fn) if isinstance(st, ast.Assign) for t in st.targets if isinstance(t, ast.Name)}
+        n_forward = 0
+        for c in calls_in(fn):
+            cn = call_name(c) or ''
+            is_dispatch = (isinstance(c.func, ast.Name) and c.func.id in local) or cn.endswith('.write')
+            if not is_dispatch:
+                continue
+            for a in list(c.args) + [k.value for k in c.keywords if k.arg is not None]:
+                r = _path_forward(m, fi, a, names)
+                if r is None:
+                    continue
+                n_forward += 1
+                if r[0] != 'same':
+                    problem = problem or (r, c)
+        ctx.need(n_forward >= 1, construct, 'the call that hands the destination on was not found')
+        if problem is None:
+            ctx.ok(construct, 'the destination is handed on as named by the caller')
+        elif problem[0][0] == 'follows':
+            ctx.bad(construct, 'destination-resolved',
+                    f'{construct} hands the writer `{problem[0][1]}` instead of the path it was given: a symbolic link is replaced '
+                    'by its target, so for a dangling link the writer\'s os.path.lexists guard finds nothing and the file is '
+                    'created through the link although overwrite=False', fi.loc(problem[1]))
+        else:
+            raise AnalysisError('C14.R7b', construct, f'what reaches the writer as destination is not recognised: {problem[0][1]}')
+
+
 RULES = [
     RuleDef('R1', 'lexists guard dominates every destination-creating call', r1, 3),
     RuleDef('R2', 'serialisation dominates open; no repo code after open', r2, 3),
@@ -1046,5 +1186,6 @@ RULES = [
     RuleDef('R5', 'registry raises IORegistryError for unknown/unidentified formats; identifier selection', r5, 7),
     RuleDef('R5b', 'format inference is asked with (path, class, method) in the identifiers\' roles; format element of the key', r5b, 4),
     RuleDef('R7', 'dispatch layer never creates, removes or renames the destination', r7, 3),
+    RuleDef('R7b', 'the destination reaches the format writer as the caller named it (no link resolution on the way)', r7b, 3),
     RuleDef('R6', 'identification and I/O keep no state between calls (C13.R2 on registry/io)', r6, 1),
 ]
